@@ -141,7 +141,9 @@ Inductive event :=
 | ProxyRestart (a : addr)
 | BrokerAdvance (ms : list N)              (* any broker operation; ms = keys of migrations it starts *)
 | Report (a : addr) (m : mig)              (* INFOMGR of a lists m as finished *)
-| Commit (id : N).                         (* a commit request for key id reaches the broker *)
+| Commit (id : N)                          (* a commit request for key id reaches the broker *)
+| BrokerCancel (ids : list N).             (* part of a broker operation: pending migrations are abandoned or re-keyed (a failover
+                                              re-issues the migration epoch, so the old (ranges, epoch) key is gone) *)
 
 Section WithBroker.
 Variable served : nat -> addr -> option (N * N).
@@ -200,6 +202,10 @@ Definition step (st : state) (ev : event) : state :=
          pending := remove_key id (pending st); started := started st; commits := id :: commits st;
          dlog := dlog st; rlog := rlog st |}
     else st       (* MigrationTaskNotFound: nothing changes *)
+  | BrokerCancel ids =>
+    {| now := now st; proxies := proxies st; queue := queue st; net := net st;
+       pending := filter (fun x => negb (mem x ids)) (pending st); started := started st; commits := commits st;
+       dlog := dlog st; rlog := rlog st |}
   end.
 
 Definition run (evs : list event) (st : state) : state := fold_left step evs st.
